@@ -2,7 +2,7 @@
     PARTIAL: the model quantifies over finite frame lists (every stream ends); a peer that
     neither sends nor closes, and the async scheduling, are outside it. The drivers are total
     functions over the frame list, so every run ends in Ok or a reported error. *)
-From ID Require Import Model.Session Proofs.SessionFacts.
+From ID Require Import Model.Session Proofs.SessionFacts Proofs.MirrorFacts Proofs.FsPutFacts.
 
 (** whatever frames arrive, whatever the accept callback says, whenever the store actor fails
     (closed, sync disabled, shut down — [FAct] / [FShutdown] anywhere in the list), the accepting
@@ -25,6 +25,30 @@ Theorem C10_alice_success_has_outcome : forall ks EH MF CAP mss split frames gon
   ao_outcome (snd (alice_loop ks EH MF CAP mss split gone s ns from now frames prog sent calls)) <> None.
 Proof. exact alice_loop_ok. Qed.
 
+(** on success the two sides' counts mirror each other: whenever both drivers succeed on an honest
+    connection -- the initiator receives exactly the frames the acceptor wrote and vice versa --
+    the initiator's (received, sent) is the acceptor's (sent, received); for any stores, any accept
+    callback, either value of the progress-slot switch *)
+Theorem C10_counts_mirror : forall ks EH MF CAP mss split keep sa sb ns accept fromA fromB now framesA framesB sa' sb' outA outB,
+  alice_run ks EH MF CAP mss split sa ns fromA now framesA = (sa', outA) ->
+  bob_run ks EH MF CAP mss split keep sb accept fromB now framesB = (sb', outB) ->
+  peer_only framesA -> peer_only framesB ->
+  ao_result outA = SOk -> bo_result outB = SOk ->
+  msgs framesA = somes (bo_sent outB) ->
+  msgs framesB = ao_sent outA ->
+  exists r s, ao_outcome outA = Some (r, s) /\ bo_outcome outB = Some (s, r).
+Proof. exact honest_session_mirror. Qed.
+
+Example C10_counts_mirror_nonvacuous :
+  exists framesA framesB sa sb sa' sb' outA outB,
+    alice_run prefix_succ 7 600000000 5 1 2 sa 11 0 1000010 framesA = (sa', outA) /\
+    bob_run prefix_succ 7 600000000 5 1 2 true sb (fun _ => None) 0 1000010 framesB = (sb', outB) /\
+    peer_only framesA /\ peer_only framesB /\
+    ao_result outA = SOk /\ bo_result outB = SOk /\
+    msgs framesA = somes (bo_sent outB) /\ msgs framesB = ao_sent outA /\
+    ao_outcome outA = Some (2, 3) /\ bo_outcome outB = Some (3, 2).
+Proof. exact honest_session_example. Qed.
+
 (** sensitivity: if the progress slot is left empty when the store actor fails (the pinned
     behaviour), the outcome is lost *)
 Example C10_outcome_lost_if_slot_emptied :
@@ -36,3 +60,5 @@ Print Assumptions C10_bob_outcome_always_available.
 Print Assumptions C10_declined_changes_nothing.
 Print Assumptions C10_alice_success_has_outcome.
 Print Assumptions C10_outcome_lost_if_slot_emptied.
+Print Assumptions C10_counts_mirror.
+Print Assumptions C10_counts_mirror_nonvacuous.
